@@ -6,6 +6,7 @@
 #include <cppcms/session_storage.h>
 #include <cppcms/cppcms_error.h>
 #include <memory>
+#include <thread>
 #include "../sim/runner.h"
 
 namespace {
@@ -56,6 +57,17 @@ struct E7 : Engine {
 		J c = J::obj(); c["sid"] = (int)r.below(2); c["len"] = pick_len(); c["dl"] = 1 + (int)r.below(20); c["fill"] = (int)r.below(6);
 		c["post"] = (int)r.below(3); c["tick_after"] = r.below(3)==0 ? (int)r.below(25) : 0; c["random_states"] = thorough ? 256 : 64;
 		p["crash"] = c;
+		// a fifth of the plans: instead of the crashing save, a concurrent phase - savers, loaders, removers and gc as scheduled threads on the same two sessions
+		if(r.below(5) == 0){ p["crash"] = J(); J th = J::arr(); int nt = 2 + r.below(2);
+			for(int t=0;t<nt;t++){ J l = J::arr(); int k = 1 + r.below(3);
+				for(int i=0;i<k;i++){ J o = J::obj(); unsigned x = r.below(100);
+					if(x < 40){ o["op"] = "save"; o["sid"] = (int)r.below(2); o["len"] = pick_len(); o["dl"] = r.below(8)==0 ? -(int)(1 + r.below(3)) : 1 + (int)r.below(20); o["fill"] = (int)r.below(2) * 5; }
+					else if(x < 65){ o["op"] = "load"; o["sid"] = (int)r.below(2); }
+					else if(x < 72){ o["op"] = "remove"; o["sid"] = (int)r.below(2); }
+					else { o["op"] = "gc"; }
+					l.push(o); }
+				th.push(l); }
+			p["conc"] = th; p["sched_seed"] = (unsigned long long)(r.next() >> 8); p["strategy"] = (int)r.below(3); p["pct_depth"] = 1 + (int)r.below(3); p["pct_len"] = 30 + (int)r.below(600); }
 		return p;
 	}
 
@@ -131,6 +143,7 @@ struct E7 : Engine {
 		RunResult res; Ctx c; c.res = &res;
 		simk::Params sp; sp.fault_seed = (uint64_t)plan.geti("fault_seed",1); sp.tick_us = 0; sp.text_trace = plan.geti("text_trace");
 		sp.p_file_short = (unsigned)std::max<int64_t>(0,std::min<int64_t>(plan.geti("p_file_short"),1024)); sp.p_file_eintr = (unsigned)std::max<int64_t>(0,std::min<int64_t>(plan.geti("p_file_eintr"),900));
+		sp.sched_seed = (uint64_t)plan.geti("sched_seed",1); sp.strategy = (int)(((plan.geti("strategy") % 3) + 3) % 3); sp.pct_depth = (int)std::max<int64_t>(1,std::min<int64_t>(plan.geti("pct_depth",2),8)); sp.pct_len = (int)std::max<int64_t>(1,plan.geti("pct_len",200));
 		c.faults = sp.p_file_short || sp.p_file_eintr; sp.file_short_min = 17;   // the 16-byte header is atomic by the property's premise
 		simk::begin(sp);
 		bool file_lock = plan.geti("file_lock");
@@ -162,6 +175,40 @@ struct E7 : Engine {
 			}
 			// a file with a well-formed name that holds garbage is "unreadable": load reports no session and removes it
 			if(res.ok) for(int g=2;g<4;g++){ std::string sid = sid_name(g); if(c.model.count(sid) && simk::fs_exists(path_of(sid))){ c.cnt["garbage_loads"]++; try { do_load(c,*st,sid,"garbage file"); } catch(std::exception const &e){ c.fail("garbage-file-crashes-load",std::string("load of a garbage file threw ") + e.what()); } } }
+		}
+		// ---------------- concurrent phase (no crash): each session file behaves as a regular register whose values are (value, deadline) or "absent".
+		// A load returns what some save wrote as a whole - a save that had started before the load ended and was not surely overwritten (by a save / remove that
+		// started after it had completed and completed before the load started) - or nothing if such a candidate is a remove, the initial absence, or a record past
+		// its deadline. gc and load remove dead records only, so they are not writers: a live session that vanishes is a violation whoever unlinked it.
+		const J &cc = plan.get("conc");
+		if(res.ok && cc.is_arr() && cc.size()){
+			struct W { uint64_t st, en; bool present; Saved s; };
+			std::map<std::string,std::vector<W>> ws; uint64_t ev = 0; c.cnt["concurrent_runs"]++;
+			for(int i=0;i<2;i++){ std::string sid = sid_name(i); SidModel &m = c.model[sid]; W w; w.st = w.en = 0; w.present = m.present; w.s = m.cur; ws[sid].reserve(32); ws[sid].push_back(w); }
+			session_file_storage_factory f(DIR_,5,1,file_lock); booster::shared_ptr<session_storage> st = f.get(); int64_t now0 = c.now();
+			auto judge_load = [&](const std::string &sid,uint64_t ls,uint64_t le,bool ok,const std::string &out,int64_t dl,const std::string &where){
+				bool fine = false; std::string cands;
+				for(const W &w:ws[sid]){ if(w.st >= le) continue; bool dead = false; for(const W &w2:ws[sid]) if(w2.st > w.en && w2.en < ls) dead = true; if(dead) continue;
+					bool live = w.present && w.s.deadline >= now0; cands += live ? " live(" + show(w.s.val) + ")" : " none";
+					if(ok ? (live && w.s.val == out && w.s.deadline == dl) : !live) fine = true; }
+				if(fine) return;
+				if(ok) c.fail("corrupted-session-concurrent",where + ": load(" + sid.substr(0,6) + ") returned " + show(out) + " deadline " + std::to_string((long)dl) + " which is not what a save that could be current wrote; candidates:" + cands);
+				else c.fail("live-session-lost",where + ": load(" + sid.substr(0,6) + ") found nothing although every candidate state is a live session:" + cands + " (gc / load / a concurrent save removed or hid it)"); };
+			auto worker = [&](int me){ const J &l = cc.a[me];
+				for(size_t i=0;i<l.size() && i<6 && res.ok;i++){ const J &o = l.a[i]; std::string op = o.gets("op"); std::string sid = sid_name((int)(o.geti("sid") & 1)); std::string where = "thread " + std::to_string(me) + " op#" + std::to_string(i) + " " + op;
+					try {
+					if(op == "save"){ W w; w.present = true; w.s.val = make_payload((int)o.geti("fill") ? 5 : 0,(int)o.geti("len"),(int)(me*16+i),""); w.s.deadline = now0 + o.geti("dl"); size_t idx; { simk::TsanIgnore ign; w.st = ++ev; w.en = UINT64_MAX; ws[sid].push_back(w); idx = ws[sid].size()-1; }
+						st->save(sid,w.s.deadline,w.s.val); { simk::TsanIgnore ign; ws[sid][idx].en = ++ev; } c.cnt["conc_saves"]++; }
+					else if(op == "remove"){ W w; w.present = false; size_t idx; { simk::TsanIgnore ign; w.st = ++ev; w.en = UINT64_MAX; ws[sid].push_back(w); idx = ws[sid].size()-1; } st->remove(sid); { simk::TsanIgnore ign; ws[sid][idx].en = ++ev; } }
+					else if(op == "gc"){ f.gc_job(); c.cnt["conc_gc"]++; }
+					else { uint64_t ls,le; { simk::TsanIgnore ign; ls = ++ev; } time_t dl = 0; std::string out; bool ok = st->load(sid,dl,out); { simk::TsanIgnore ign; le = ++ev; judge_load(sid,ls,le,ok,out,(int64_t)dl,where); c.cnt["conc_loads"]++; } }
+					} catch(std::exception const &e){ c.fail("storage-threw",where + ": " + e.what()); } } };
+			{ std::vector<std::thread> thr; for(size_t t=0;t<cc.size() && t<4;t++) thr.emplace_back([&,t]{ worker((int)t); }); for(auto &t:thr) t.join(); }
+			// afterwards: every session holds the last state written (a state no completed later write replaced), and gc run alone keeps the live ones
+			for(int round=0;round<2 && res.ok;round++){ if(round) f.gc_job();
+				for(int i=0;i<2 && res.ok;i++){ std::string sid = sid_name(i); time_t dl = 0; std::string out; bool ok = st->load(sid,dl,out); judge_load(sid,ev+1,ev+2,ok,out,(int64_t)dl,round ? "after the concurrent phase and a gc" : "after the concurrent phase");
+					if(res.ok && !ok && simk::fs_exists(path_of(sid))) c.fail("unreadable-file-not-removed","after the concurrent phase: load(" + sid.substr(0,6) + ") failed but the file is still there"); } }
+			if(c.cnt["conc_saves"] && c.cnt["conc_loads"] + c.cnt["conc_gc"]) res.nt = simk::trace_hash() | 1;
 		}
 		// ---------------- the crashing save
 		const J &cr = plan.get("crash");
@@ -215,7 +262,7 @@ struct E7 : Engine {
 		res.counters["sim_seconds"] = (long long)((simk::now_us() - sp.start_time_s*1000000LL)/1000000);
 		simk::end();
 		for(auto &kv:c.cnt) res.counters[kv.first] = (long long)kv.second;
-		if(c.cnt["crash_states"] > 3 && c.cnt["crash_load_none"] > 0 && (c.cnt["crash_load_old"] + c.cnt["crash_load_new"]) > 0) res.nt = res.hash ? res.hash : 1;
+		if(!res.nt && c.cnt["crash_states"] > 3 && c.cnt["crash_load_none"] > 0 && (c.cnt["crash_load_old"] + c.cnt["crash_load_new"]) > 0) res.nt = res.hash ? res.hash : 1;
 		return res;
 	}
 };
